@@ -539,6 +539,10 @@ class PA:
     def flatten(self):
         return self.ravel()
 
+    def tobytes(self, order='C'):
+        """a hashable stand-in for the byte string of the array (used as a dict key by callers): see PAKey"""
+        return PAKey(self)
+
     def astype(self, dtype):
         k = _kind_of_dtype(dtype)
         if k == self.kind:
@@ -625,6 +629,46 @@ class PA:
             elif self.kind == 'i' and isinstance(value, (int, onp.integer)) and self.ecap is not None:
                 self.ecap = max(self.ecap, int(value)) if value >= 0 else None
             self.data[key] = value
+
+
+def _term_id(x):
+    if isz(x):
+        return ('z', x.get_id())
+    if isinstance(x, OH):
+        return ('oh', tuple(sorted((k, (c.get_id() if isz(c) else c)) for k, c in x.d.items())))
+    return ('c', type(x).__name__, x)
+
+
+class PAKey:
+    """what `a.tobytes()` returns for a padded array. Two keys are equal iff the arrays have the same kind, size and contents.
+    Structurally identical contents (z3 terms are hash-consed) are equal outright; otherwise equality of the contents is a
+    symbolic condition and `==` FORKS the exploration on it (exact for every assignment). The hash depends on size and kind only."""
+
+    def __init__(self, a):
+        a._need_dense('tobytes')
+        self.kind = a.kind
+        self.vals = list(a.data.reshape(-1))            # keeps the terms alive (z3 AST ids are reused after garbage collection)
+        self.ids = tuple(_term_id(v) for v in self.vals)
+
+    def __hash__(self):
+        return hash(('PAKey', len(self.vals), self.kind))
+
+    def __eq__(self, o):
+        if not isinstance(o, PAKey):
+            return False
+        if self.kind != o.kind or len(self.vals) != len(o.vals):
+            return False
+        if self.ids == o.ids:
+            return True
+        eq = {'b': b_iff, 'i': i_eq, 'f': lambda x, y: (x == y) if (num(x) and num(y)) else (sym.toz(x) == sym.toz(y))}[self.kind]
+        c = b_and(*[eq(x, y) for x, y in zip(self.vals, o.vals)])
+        return bool(px.SymBool(c)) if isz(c) else bool(c)
+
+    def __ne__(self, o):
+        return not self.__eq__(o)
+
+    def __repr__(self):
+        return 'PAKey(%s, %d)' % (self.kind, len(self.vals))
 
 
 def _concrete_key(key):
@@ -1507,6 +1551,31 @@ def goals_coo(G, cfg, orc, dm):
     G('coo_pair_t_belongs_to_masked_entry_t_up_to_one_global_transposition', [b_or(b_and(*straight), b_and(*transposed))])
 
 
+def make_history_harness(cfgA, cfgB):
+    """two DofManagers built one after the other IN THE SAME loaded module namespace (module-level state of FunctionSpace.py
+    persists between them): mesh A, then mesh B with the same array shapes, another connectivity and the SAME symbolic mask.
+    The goals are stated for the second one. Replay: the two real DofManagers are built in that order after the library module has
+    been re-initialised (importlib.reload), i.e. as in a fresh interpreter."""
+    assert cfgA.nN == cfgB.nN and cfgA.dim == cfgB.dim and cfgA.bcs == cfgB.bcs and onp.shape(cfgA.conns) == onp.shape(cfgB.conns)
+
+    def fn(ex):
+        member = draw_member(ex, cfgA)
+        mod = load_function_space_module() if ex.symbolic else None
+        if not ex.symbolic:
+            import importlib
+            import optimism.FunctionSpace as _FS
+            importlib.reload(_FS)
+        build_dof_manager(cfgA, member, ex.symbolic, mod=mod)
+        dmB, _ = build_dof_manager(cfgB, member, ex.symbolic, mod=mod)
+        orcB = Oracle(cfgB, member)
+
+        def G(name, conds):
+            ex.goal(name, Holds(list(conds)), info='second DofManager (%s) built after one for %s' % (cfgB.name, cfgA.name))
+        goals_coo(G, cfgB, orcB, dmB)
+        goals_partition(G, cfgB, orcB, dmB)
+    return fn
+
+
 PARTS = {
     'partition': lambda G, cfg, orc, dm, ex: goals_partition(G, cfg, orc, dm),
     'sizes': lambda G, cfg, orc, dm, ex: goals_sizes(G, cfg, orc, dm),
@@ -1754,3 +1823,24 @@ def _register_coo():
 
 
 _register_coo()
+
+
+HISTORIES = [('tri2_f1', 'tri2b_f1'), ('tri2b_f1', 'tri2_f1'), ('tri2_f2', 'tri2b_f2')]
+
+
+def _hist_cfg(name):
+    mesh = {'tri2': TRI2, 'tri2b': TRI2B}[name.split('_')[0]]
+    return Cfg(name, *mesh, int(name[-1]), extra=False)
+
+
+@obligation(P, 'O5.coo_maps_after_another_mesh', cap=600)
+def o5_history(h):
+    """HISTORY: a DofManager built after another one for a mesh with the same array shapes, a different connectivity and the same
+    constrained (node, component) pairs — in the same interpreter / loaded module — still has the COO maps, mask and index arrays
+    of ITS mesh (all masks). tri2 -> tri2b, tri2b -> tri2 (1 field), tri2 -> tri2b (2 fields)."""
+    pairs = [(_hist_cfg(a), _hist_cfg(b)) for a, b in HISTORIES]
+    _meta(h, [c for p in pairs for c in p], 'O5 history: two constructions in sequence, the same symbolic membership flags for both meshes; goals on the second DofManager')
+    h.assume_note('a.tobytes() of a padded array is a key object whose equality is structural on the symbolic contents (identical terms: equal; otherwise `==` forks the '
+                  'exploration on the equality of the contents), hash by size and kind only')
+    for a, b in pairs:
+        px.run_px(h, '%s_then_%s' % (a.name, b.name), make_history_harness(a, b), cap=120, order=('sat', 'core'), expect_goals=GOALS_COO + GOALS_PARTITION)
